@@ -3,6 +3,7 @@ C07 — a buffered flush never silently overwrites a file changed by someone els
 -/
 import SC.Lemmas.Buffer
 import SC.Lemmas.BufCap
+import SC.Lemmas.BufVisible
 namespace SC.Props
 open SC SC.B
 
@@ -38,6 +39,27 @@ theorem C07_readonly_silent_memory (s : B.State) (oi : Nat) (o : B.Obj) (force :
     (flushMem s oi o force).2 = none ∧
     (flushMem s oi o force).1.stores = s.stores ∧ (flushMem s oi o force).1.metas = s.metas :=
   flushMem_readonly s oi o force e hb he hm
+
+/-- C07 (c), what the conflict check compares against: a capacity-forced flush of the shared-memory
+strategy keeps the entry in the buffer, and it changes the entry's recorded metadata ONLY if it has
+just written the file with the buffered data — then to the metadata of exactly that write.  So the
+recorded metadata always describes a file state the buffered data is based on, and a later outside
+change is still detected.  (The defect repaired in e2e2336 refreshed it for entries the flush had
+not written, adopting an outside writer's file state.) -/
+theorem C07_forced_flush_refreshes_only_what_it_wrote (s : B.State) (oi : Nat) (o : B.Obj) (e : B.Entry)
+    (he : s.entry o.res = some e) :
+    ∃ e', (flushMem s oi o true).1.entry o.res = some e' ∧ e'.modified = false ∧
+      (e'.fmeta = e.fmeta ∨
+       ((flushMem s oi o true).2 = none ∧
+        (flushMem s oi o true).1.store o.res = some (s.cellData e.cell).toBase ∧
+        e'.fmeta = (flushMem s oi o true).1.stat o.res)) :=
+  forced_flush_refreshes_only_what_it_wrote s oi o e he
+
+/-- ... and a serialized buffered save never touches the metadata recorded when the file entered
+the buffer (it is taken at the first buffered access, not at the first save) -/
+theorem C07_save_keeps_recorded_metadata (s0 : B.State) (o : B.Obj) (e : B.Entry) (he : s0.entry o.res = some e) :
+    ∃ e', (saveSer s0 o).entry o.res = some e' ∧ e'.fmeta = e.fmeta :=
+  saveSer_keeps_metadata s0 o e he
 
 /-- C07 (d), settings: leaving a backend-wide context restores the capacity saved at entry and
 pops the stack in every state — in particular when the exit raises `BufferedError`. -/
